@@ -348,16 +348,6 @@ Qed.
 
 Definition word_ok (w : bytes) : Prop := length w = 4 /\ bytes_ok w = true.
 
-Lemma chunks_all_full : forall n k l, 0 < n -> length l = n * k ->
-  Forall (fun c => length c = n) (chunks n l) /\ length (chunks n l) = k.
-Proof.
-  intros n k. induction k; intros l Hn Hl.
-  - rewrite Nat.mul_0_r in Hl. apply length_zero_nil in Hl. subst. split; [constructor|reflexivity].
-  - rewrite chunks_cons; [|assumption|apply nonnil_length; nia].
-    destruct (IHk (skipn n l) Hn) as [I1 I2]; [rewrite skipn_length; nia|].
-    split; [constructor; [rewrite firstn_length; nia|exact I1]|cbn [length]; now rewrite I2].
-Qed.
-
 Lemma word_ok_xor : forall a b, word_ok a -> word_ok b -> word_ok (xor_bytes a b).
 Proof.
   intros a b [La Oa] [Lb Ob]. split; [rewrite xor_bytes_length; lia|now apply bytes_ok_xor].
